@@ -85,6 +85,15 @@ def run(task):
                     if j >= 0:
                         a = [int(x) for x in J.index_as_genotype_alleles(j, p)]
                         ev.append({"op": "unrank", "alleles": a, "limbs": limbs(j), "ploidy": p})
+        # the forward map on the compact integer types the programs store genotypes in (alleles up to the type's maximum)
+        for dt, hi in ((np.int8, 127), (np.uint8, 255), (np.int16, 260), (np.int32, 260), (np.uint16, 260)):
+            for p in (1, 2, 3, 4, 6):
+                for _ in range(10):
+                    g = sorted(rnd.choice([0, 1, hi - 1, hi, hi // 2, rnd.randrange(hi + 1)]) for _ in range(p))
+                    if mcomb(g[-1] + p, p) >= 2**53:
+                        continue
+                    idx = int(J.genotype_alleles_as_index(np.array(g, dtype=dt)))
+                    ev.append({"op": "index", "alleles": [int(x) for x in g], "limbs": limbs(idx), "dtype": np.dtype(dt).name})
         # binomials with k > n are zero (also through the lookup table and any symmetry shortcut)
         for n in list(range(0, 30)) + [98, 99, 100, 101, 128]:
             for k in (n + 1, n + 2, 11, 12, 13, 14):
